@@ -329,9 +329,9 @@ Definition do_query (e : env) (c : cfg) (m : st) (a : N) (p : bytes) : st * out 
          | None => []
          end in
   let from_dirty := filter (fun kv : bytes * val => is_prefix p (fst kv)) (o_dst o) in
-  (* Go map assignment: later stores overwrite earlier ones *)
-  let merged := fold_left (fun acc (kv : bytes * val) => kput (fst kv) (snd kv) acc)
-                          (from_db ++ from_cache ++ from_dirty) [] in
+  (* Go map assignment: later stores (dirty after cache after db) overwrite earlier ones *)
+  let merged := fold_right (fun (kv : bytes * val) acc => kput (fst kv) (snd kv) acc) []
+                           (from_dirty ++ from_cache ++ from_db) in
   let vals := map snd merged in
   let vals := if d_query_nil c then vals else filter (fun v => negb (is_nil v)) vals in
   let sorted := isort val_leb vals in
@@ -435,7 +435,7 @@ Definition journal_of (m : st) (a : N) (o : obj) : obj * option jentry :=
   let achg := acct_changed (o_orig o) (o_dirty o) in
   let cchg := negb (veqb oc (o_dcode o)) in
   let pst := map (fun kv : bytes * val => (fst kv, orig_of o (fst kv))) (changed_entries o) in
-  let en := mkJE a achg (if achg then o_orig o else None) (isort kv_leb pst) cchg (if cchg then oc else None) in
+  let en := mkJE a achg (if achg then o_orig o else None) pst cchg (if cchg then oc else None) in
   (o1, if achg || cchg || negb (Nat.eqb (List.length pst) 0) then Some en else None).
 
 Definition dirty_data (e : env) (a : N) (o : obj) : bytes :=
@@ -449,10 +449,10 @@ Definition cache_add (ch : cache) (a : N) (o : obj) : cache :=
   let ca := match o_dirty o with Some d => aput a d (c_acct ch) | None => c_acct ch end in
   let cs :=
     match aget a (c_st ch) with
-    | Some cm => aput a (fold_left (fun acc (kv : bytes * val) => kput (fst kv) (snd kv) acc) (o_dst o) cm) (c_st ch)
+    | Some cm => aput a (fold_right (fun (kv : bytes * val) acc => kput (fst kv) (snd kv) acc) cm (o_dst o)) (c_st ch)
     | None => match o_dst o with
               | [] => c_st ch
-              | _ => aput a (fold_left (fun acc (kv : bytes * val) => kput (fst kv) (snd kv) acc) (o_dst o) []) (c_st ch)
+              | _ => aput a (fold_right (fun (kv : bytes * val) acc => kput (fst kv) (snd kv) acc) [] (o_dst o)) (c_st ch)
               end
     end in
   let cc :=
@@ -480,8 +480,8 @@ Definition do_flush (e : env) (m : st) : st * out :=
                              match snd (snd x) with Some en => [en] | None => [] end) js in
   let data := flat_map (fun ao : N * obj => dirty_data e (fst ao) (snd ao)) (isort (ao_leb_str e) dirty) in
   let root := e_H e (data ++ s_prev m) in
-  let jn := mkJ (isort je_leb entries) root in
-  let ch := fold_left (fun c (ao : N * obj) => cache_add c (fst ao) (snd ao)) dirty (s_cache m) in
+  let jn := mkJ entries root in
+  let ch := fold_right (fun (ao : N * obj) c => cache_add c (fst ao) (snd ao)) (s_cache m) dirty in
   (mkSt (s_db m) ch [] (s_chg m) (s_gen m) (s_revs m) (s_next m) (Some (root, jn, dirty)) root
         (s_min m) (s_max m) (s_bad m),
    OFlush root (isort n_leb (map fst dirty))).
@@ -503,11 +503,11 @@ Definition commit_obj (d : db) (a : N) (o : obj) : db :=
           end
       end
     else d_code d in
-  let ds := fold_left (fun acc (kv : bytes * val) =>
-                         match snd kv with
-                         | Some b => sput (a, fst kv) b acc
-                         | None => sdel (a, fst kv) acc
-                         end) (changed_entries o) (d_st d) in
+  let ds := fold_right (fun (kv : bytes * val) acc =>
+                          match snd kv with
+                          | Some b => sput (a, fst kv) b acc
+                          | None => sdel (a, fst kv) acc
+                          end) (d_st d) (changed_entries o) in
   mkDb da dc ds (d_jnl d) (d_min d) (d_max d).
 
 Fixpoint del_range (fuel : nat) (i : N) (l : list (N * journal)) : list (N * journal) :=
@@ -520,7 +520,7 @@ Definition do_commit (m : st) (h : N) : st * out :=
   match s_pend m with
   | None => (m, ORes R_nojournal)
   | Some (_, jn, dirty) =>
-      let d1 := fold_left (fun d (ao : N * obj) => commit_obj d (fst ao) (snd ao)) dirty (s_db m) in
+      let d1 := fold_right (fun (ao : N * obj) d => commit_obj d (fst ao) (snd ao)) (s_db m) dirty in
       let min1 := if s_min m =? 0 then h else s_min m in
       let dmin1 := if s_min m =? 0 then h else d_min d1 in
       let d2 := mkDb (d_acct d1) (d_code d1) (d_st d1) (aput h jn (d_jnl d1)) dmin1 h in
@@ -540,11 +540,11 @@ Definition revert_entry (d : db) (en : jentry) : db :=
   let da := if je_achg en
             then match je_pacct en with Some x => aput a x (d_acct d) | None => adel a (d_acct d) end
             else d_acct d in
-  let ds := fold_left (fun acc (kv : bytes * val) =>
-                         match snd kv with
-                         | Some b => sput (a, fst kv) b acc
-                         | None => sdel (a, fst kv) acc
-                         end) (je_pst en) (d_st d) in
+  let ds := fold_right (fun (kv : bytes * val) acc =>
+                          match snd kv with
+                          | Some b => sput (a, fst kv) b acc
+                          | None => sdel (a, fst kv) acc
+                          end) (d_st d) (je_pst en) in
   let dc := if je_cchg en
             then match je_pcode en with Some c => aput a c (d_code d) | None => adel a (d_code d) end
             else d_code d in
@@ -559,7 +559,7 @@ Fixpoint rollback_loop (fuel : nat) (i h : N) (d : db) : db * bool :=
       else match aget i (d_jnl d) with
            | None => (d, false)
            | Some jn =>
-               let d1 := fold_left revert_entry (j_entries jn) d in
+               let d1 := fold_right (fun en d' => revert_entry d' en) d (j_entries jn) in
                let d2 := mkDb (d_acct d1) (d_code d1) (d_st d1) (adel i (d_jnl d1)) (d_min d1) (i - 1) in
                rollback_loop k (i - 1) h d2
            end
@@ -634,7 +634,12 @@ Definition do_dbdump (m : st) : dbview :=
                                  (d_acct d)))
         (isort code_row_leb (d_code d))
         (isort st_row_leb (map (fun p : (N * bytes) * bytes => (fst (fst p), snd (fst p), snd p)) (d_st d)))
-        (isort jnl_row_leb (map (fun p : N * journal => (fst p, j_entries (snd p), j_root (snd p))) (d_jnl d)))
+        (isort jnl_row_leb
+           (map (fun p : N * journal =>
+                   (fst p,
+                    isort je_leb (map (fun en => mkJE (je_addr en) (je_achg en) (je_pacct en) (isort kv_leb (je_pst en))
+                                                      (je_cchg en) (je_pcode en)) (j_entries (snd p))),
+                    j_root (snd p))) (d_jnl d)))
         (d_min d) (d_max d) (s_min m) (s_max m) (s_prev m).
 
 (** * one step *)
